@@ -431,6 +431,9 @@ def mk_cmp(op, a, b):
     if op in ("==", "!="):
         for x, y in ((a, b), (b, a)):
             ax = x.single_atom()
+            if y == NONE and ax is not None and ax[0] == "getattr" and ax[2] in ("columns", "shape", "index", "values", "dtype", "size", "ndim", "T", "iloc", "loc"):
+                # structural attributes of arrays / frames are objects, never None
+                return const(op == "!=")
             if y == NONE and ax is not None and ax[0] == "sub" and _is_slice(ax[2]):
                 # a slice of anything that can be sliced is a container, never None
                 return const(op == "!=")
